@@ -25,6 +25,12 @@ Round 4 additions (all under the monitors above):
   exact-dyadic     badly scaled matrices (entries of ONE matrix spanning > 2^42,
                    cond ~ 1e25) on which every operation is exact: the laws with a
                    tolerance that does not scale with the condition number.
+  exact-identity   pairs (A, B) with A@B EXACTLY the identity (stacks of exact involutions,
+                   signed permutations / dyadic matrices with their inverses) acting
+                   on objects with fewer composite axes; relator lists through
+                   rep.elements(words) @ p.  mixed-product: inverse and identity laws
+                   for Transformation @ Isometry (an Isometry object with a general
+                   matrix) and Isometry @ Transformation.
   enumerations     (in words) every enumeration route of a representation
                    (automaton_accepted default / start_state / end_state, maxlen,
                    with and without words, freely_reduced_elements): element i acts
@@ -253,7 +259,7 @@ def wl_laws(run, rng, idx):
     MA, MB = G.row_matrix(tkind, araw), G.row_matrix(tkind, braw)
     check_laws(run, mon, kind, n, oshape, ashape, bshape, tkind, cx, raw, X, A, B, MA, MB,
                case, idx)
-    if general_on_hyp and G.KINDS[kind][3] is not None:
+    if general_on_hyp:
         # mixed pair on a hyperbolic object with derived data: A a general
         # projective Transformation, B an Isometry.  A @ B is then an Isometry
         # *object* carrying the matrix A.B, and associativity must still hold on
@@ -273,10 +279,58 @@ def wl_laws(run, rng, idx):
         IY = P.identity(n) @ L
         same_object(run, mon, "identity-after-mixed-product", kind, IY, L, 1e-12, case2)
         run.note_class("associativity-mixed", kind, n, oshape, ashape, bshape)
+        mixed_product_laws(run, mon, kind, n, oshape, ashape, bshape, X, A, B2, MA, MB2, tol, case2,
+                           both=bool(idx % 2))
+
+
+def mixed_product_laws(run, mon, kind, n, oshape, ashape, bshape, X, A, B2, MA, MB2, tol, case, both=True):
+    """identity and inverse laws for the products of mixed classes.  By the type
+    rule C = A @ B2 (A a general projective Transformation, B2 an Isometry) is an
+    Isometry *object* whose matrix is not in O(n,1); D = B2 @ A is a plain
+    Transformation.  Both are transformations like any other: C.inv() @ (C @ X)
+    ~ X, C.inv() @ C ~ id, id @ C ~ C (seeded change C03-r6-1: Isometry.inv()
+    by the Minkowski adjoint J M^T J, right only for matrices that preserve the
+    form)."""
+    from geometry_tools import projective as P, hyperbolic as H
+    cshape = tuple(np.broadcast_shapes(ashape, bshape))
+    for name, L, Rr, ML, MR in (("T@I", A, B2, MA, MB2), ("I@T", B2, A, MB2, MA)):
+        if name == "I@T" and not both:
+            continue
+        C, MC, want_cls = L @ Rr, _row_product(ML, MR), type(Rr)
+        key = "action-laws/mixed-product/%s" % name
+        if not mon.require(type(C) is want_cls and tuple(C.shape) == cshape, key + "/class-or-shape",
+                           "the product %s is a %s of shape %r (right operand: %s, broadcast shape %r)"
+                           % (name, type(C).__name__, C.shape, want_cls.__name__, cshape), case):
+            continue
+        mon.judge(rp.max_mat_dev(C.proj_data, MC), tol, key + "/matrix",
+                  "the product %s does not carry the product of the matrices" % name, case)
+        Ci = C.inv()
+        if not mon.require(type(Ci) is type(C) and tuple(Ci.shape) == cshape, key + "/inverse/class-or-shape",
+                           "(%s).inv() is a %s of shape %r" % (name, type(Ci).__name__, Ci.shape), case):
+            continue
+        mon.judge(rp.max_mat_dev(Ci.proj_data, np.linalg.inv(MC)), tol, key + "/inverse/matrix",
+                  "(%s).inv() is not the inverse matrix of the product" % name, case)
+        CiC = Ci @ C
+        mon.judge(rp.max_mat_dev(CiC.proj_data, np.broadcast_to(np.eye(n + 1), np.shape(CiC.proj_data))),
+                  tol, key + "/inverse/transformation", "(%s).inv() @ (%s) is not the identity" % (name, name), case)
+        back = Ci @ (C @ X)
+        if tuple(np.broadcast_shapes(oshape, cshape)) == tuple(oshape):
+            same_object(run, mon, "mixed-product/%s/inverse" % name, kind, back, X, tol, case)
+        else:
+            for ridx, oi, _ in rp.operand_indices(oshape, cshape, "elementwise"):
+                mon.judge(G.compare_primary(kind, back.proj_data[ridx], X.proj_data[oi]), tol,
+                          key + "/inverse/primary",
+                          "(%s).inv() @ ((%s) @ X) differs from X on the primary data of a %s"
+                          % (name, name, kind), case)
+        for I in (H.identity(n), P.identity(n)):
+            mon.judge(max(rp.max_mat_dev((I @ C).proj_data, C.proj_data),
+                          rp.max_mat_dev((C @ I).proj_data, C.proj_data)), 1e-12,
+                      key + "/identity", "id @ (%s) or (%s) @ id differs from the product" % (name, name), case)
+        run.note_class("mixed-product", name, kind, n, oshape, ashape, bshape)
 
 
 def check_laws(run, mon, kind, n, oshape, ashape, bshape, tkind, cx, raw, X, A, B, MA, MB,
-               case, idx, label=None, exact_tol=None, MAB_inv=None):
+               case, idx, label=None, exact_tol=None, MAB_inv=None, inverse_assoc=None):
     """the law triples for one (X, A, B); MA, MB are the row matrices of A, B
     known independently of the calls under test.  exact_tol: flat tolerance for
     cases certified free of rounding (then MAB_inv is the exact row matrix of
@@ -347,6 +401,18 @@ def check_laws(run, mon, kind, n, oshape, ashape, bshape, tkind, cx, raw, X, A, 
     eye = np.broadcast_to(np.eye(n + 1), AiA.proj_data.shape)
     mon.judge(rp.max_mat_dev(AiA.proj_data, eye), tol, "action-laws/inverse/transformation",
               "A.inv()@A is not the identity", case)
+    # associativity for the triple (A.inv(), A, X): the composed map is the
+    # identity (exactly so for exactly invertible A), and acting by it must still
+    # give an object of the broadcast shape of A and X, equal to A.inv()@(A@X)
+    # (seeded change C03-r6-3: a stack of exact identities skips broadcasting)
+    if inverse_assoc or (inverse_assoc is None and (idx % 4 == 0 or exact_tol is not None)):
+        LI = AiA @ X
+        if mon.require(type(LI) is type(X)
+                       and tuple(LI.shape) == tuple(np.broadcast_shapes(oshape, ashape)),
+                       "action-laws/associativity-with-inverse/class-or-shape",
+                       "(A.inv()@A)@X is a %s of shape %r; X is a %s of shape %r, A has shape %r"
+                       % (type(LI).__name__, LI.shape, type(X).__name__, oshape, ashape), case):
+            same_object(run, mon, "associativity-with-inverse", kind, LI, back, tol, case)
     ABi = AB.inv()
     mon.judge(rp.max_mat_dev(ABi.proj_data, np.linalg.inv(_row_product(MA, MB))
                              if MAB_inv is None else MAB_inv),
@@ -880,6 +946,136 @@ def _dyadic_words(run, rng, idx, n):
 
 
 # ---------------------------------------------------------------------------
+# products that are EXACTLY the identity
+
+EXACT_ID_SHAPES = [((), (3,)), ((), (2, 3)), ((3,), (2, 3)), ((), (4,)), ((3,), (2, 1)),
+                   ((1,), (3,)), ((), (1,)), ((3,), (3,))]
+EXACT_ID_MODES = ["involution-squared", "involution-times-inverse", "signed-permutation-times-inverse",
+                  "dyadic-times-inverse"]
+RELATORS = ["", "aa", "aA", "bB", "Bb", "AA", "abBA", "aabB"]
+
+
+def wl_exact_identity(run, rng, idx):
+    """the laws for pairs (A, B) whose product is EXACTLY the identity matrix --
+    composite stacks of exact involutions composed with themselves (coordinate
+    reflections, swaps), signed permutations and exactly invertible dyadic
+    matrices composed with their inverses -- acting on objects with FEWER
+    composite axes than the maps: (A@B)@X must have the broadcast shape and
+    equal A@(B@X) unit by unit.  With float products that are the identity only
+    up to rounding this never happens, so a shortcut for identity maps was never
+    exercised (seeded change C03-r6-3: a stack of exact identities returns the
+    object untouched, without broadcasting its composite axes).  The same for
+    lists of relators ('' , 'aa', 'aA', ...) of exact generators through
+    rep.elements(words) @ p."""
+    from geometry_tools import projective as P, hyperbolic as H
+    mon = run.monitor("action-laws")
+    kind = KINDS[idx % len(KINDS)]
+    r = idx // len(KINDS)
+    hyp = G.KINDS[kind][1]
+    oshape, ashape = EXACT_ID_SHAPES[(r + idx) % len(EXACT_ID_SHAPES)]
+    mode = EXACT_ID_MODES[(r + idx // 3) % (3 if hyp else 4)]
+    n = c04.dims_for(kind, r + idx // 7)
+    d = n + 1
+    tkind = "H.Isometry" if hyp else "P.Transformation"
+    dy_inv = None
+    if mode == "dyadic-times-inverse":
+        a = GX.draw_dyadic(rng, d, GX.DYADIC_FORMS[idx % 4], ashape, min_spread_bits=6 + idx % 30)
+        MAc, dy_inv = a["M"], a["Minv"]
+        if not GX.certify_inverse(MAc, dy_inv):
+            return mon.skip("exact-dyadic: a product is not certified free of rounding")
+    else:
+        MAc = GX.signed_permutations(rng, d, ashape, involution=mode.startswith("involution"), fix0=hyp)
+    Tcls = H.Isometry if hyp else P.Transformation
+    A = Tcls(MAc.copy(), column_vectors=True)
+    if mode == "involution-squared":
+        B, MBc = Tcls(MAc.copy(), column_vectors=True), MAc
+    else:
+        B = A.inv()
+        MBc = np.swapaxes(MAc, -1, -2) if dy_inv is None else dy_inv
+    MA, MB = np.swapaxes(MAc, -1, -2).copy(), np.swapaxes(MBc, -1, -2).copy()
+    raw = G.draw(rng, kind, n, oshape)
+    case = {"kind": kind, "dimension": n, "object_shape": list(oshape), "A_shape": list(ashape),
+            "B_shape": list(ashape), "maps": tkind, "pair": mode, "X": raw,
+            "A(row matrix)": MA, "B(row matrix)": MB}
+    run.current_case = case
+    eye = np.broadcast_to(np.eye(d), MA.shape)
+    if not (np.array_equal(MB @ MA, eye) and np.array_equal(MA @ MB, eye)):
+        return mon.skip("exact-identity: the reference product is not exactly the identity")
+    if not mon.require(type(B) is Tcls and tuple(B.shape) == tuple(ashape)
+                       and rp.max_mat_dev(B.proj_data, MB) <= 1e-13,
+                       "action-laws/inverse/exact-matrix",
+                       "A.inv() of an exactly invertible stack (%s) is not its inverse" % mode, case):
+        return
+    X = G.build(kind, raw)
+    check_laws(run, mon, kind, n, oshape, ashape, ashape, tkind, False, raw, X, A, B, MA, MB,
+               case, idx, label="exact-identity:" + mode, inverse_assoc=True)
+    # the product applied unit by unit: entry [i] of (A@B)@X is X[broadcast index]
+    AB = A @ B
+    L = AB @ X
+    want = tuple(np.broadcast_shapes(oshape, ashape))
+    if mon.require(type(L) is type(X) and tuple(L.shape) == want
+                   and np.shape(L.proj_data)[:len(want)] == want,
+                   "action-laws/exact-identity/class-or-shape",
+                   "(A@B)@X with A@B an exact stack of identities of shape %r is a %s of shape %r; "
+                   "X is a %s of shape %r" % (ashape, type(L).__name__, L.shape, type(X).__name__, oshape), case):
+        for ridx, oi, _ in rp.operand_indices(oshape, ashape, "elementwise"):
+            mon.judge(G.compare_primary(kind, L.proj_data[ridx], X.proj_data[oi]), BASE_TOL,
+                      "action-laws/exact-identity/primary",
+                      "(A@B)@X with A@B the identity differs from X at a broadcast index (%s)" % kind, case)
+        if X.aux_data is not None:
+            mon.require(L.aux_data is not None and np.shape(L.aux_data)[:len(want)] == want,
+                        "action-laws/exact-identity/auxiliary-shape",
+                        "derived data of (A@B)@X has shape %r for a composite of shape %r"
+                        % (None if L.aux_data is None else np.shape(L.aux_data), want), case)
+    run.note_class("exact-identity", mode, kind, n, oshape, ashape)
+    if idx % 2 == 0:
+        _relator_words(run, rng, idx, n, hyp)
+
+
+def _relator_words(run, rng, idx, n, hyp):
+    from geometry_tools import projective as P, hyperbolic as H
+    mon = run.monitor("representation-action")
+    d = n + 1
+    ga = GX.signed_permutations(rng, d, (), involution=True, fix0=hyp)
+    gb = GX.signed_permutations(rng, d, (), involution=False, fix0=hyp)
+    gens = {"a": ga, "b": gb}
+    Tcls = H.Isometry if hyp else P.Transformation
+    rep = (H.HyperbolicRepresentation if hyp else P.ProjectiveRepresentation)()
+    rep["a"] = Tcls(ga.copy(), column_vectors=True)
+    rep["b"] = Tcls(gb.T.copy())
+    k = idx // 2
+    lists = [["", "aa"], ["aA", "", "bB"], ["aa", "abBA", "AA", "aabB"], ["", "ab", "aa"], ["aa"], ["b", "aa", "a"]]
+    words = lists[k % len(lists)]
+    pshape = c04.pick([(), (1,), (2, 1), ()], k // 2)
+    x = G.interior(rng, n, pshape) if hyp else rng.normal(size=tuple(pshape) + (d,))
+    p = (H.Point if hyp else P.Point)(x.copy())
+    case = {"representation": type(rep).__name__, "dimension": n, "generators(column)": gens,
+            "point": x, "words": words, "class": "exact generators, lists with relators"}
+    run.current_case = case
+    Ts = rep.isometries(words) if hyp else rep.transformations(words)
+    if not mon.require(type(Ts) is Tcls and tuple(Ts.shape) == (len(words),),
+                       "representation-action/elements-class-or-shape",
+                       "rep.elements(words) is a %s of shape %r" % (type(Ts).__name__, Ts.shape), case):
+        return
+    want = tuple(np.broadcast_shapes(pshape, (len(words),)))
+    for tag, img in (("elements@p", Ts @ p), ("elements.apply(p)", Ts.apply(p))):
+        if not mon.require(type(img) is type(p) and tuple(img.shape) == want
+                           and np.shape(img.proj_data) == want + (d,),
+                           "representation-action/elements-image-shape",
+                           "%s for %d words and a point of shape %r is a %s of shape %r (expected %r)"
+                           % (tag, len(words), pshape, type(img).__name__, img.shape, want), case):
+            continue
+        for ridx, oi, ti in rp.operand_indices(pshape, (len(words),), "elementwise"):
+            Mw, _ = rp.word_matrix(gens, words[ti[0]])
+            mon.judge(rp.max_row_dev(img.proj_data[ridx], Mw @ x[oi]), BASE_TOL,
+                      "representation-action/elements-word-image",
+                      "(rep.elements(words) @ p)[j] differs from word j's matrix applied to p",
+                      dict(case, word=words[ti[0]]))
+    run.note_class("relator-list", type(rep).__name__, n, len(words), pshape,
+                   all(np.array_equal(rp.word_matrix(gens, w)[0], np.eye(d)) for w in words))
+
+
+# ---------------------------------------------------------------------------
 # representations
 
 def wl_words(run, rng, idx):
@@ -1195,4 +1391,5 @@ WORKLOADS = [
     Workload("words", wl_words, quick=300, thorough=5000),
     Workload("dual-objects", wl_dual, quick=210, thorough=4000),
     Workload("exact-dyadic", wl_dyadic, quick=180, thorough=3000),
+    Workload("exact-identity", wl_exact_identity, quick=152, thorough=3000),
 ]
